@@ -155,6 +155,7 @@ type SpecDB struct {
 	UFs      map[string]*UFDecl
 	Tracked  map[string]bool
 	RaceStrict map[string]bool
+	SweepWrappers map[string]bool
 	Callers  []*CallersDecl
 	Conds    map[string]string
 	GlobalInvs map[string][]*Clause
@@ -190,7 +191,7 @@ type AutoTag struct {
 }
 
 func newSpecDB() *SpecDB {
-	return &SpecDB{GlobalInvs: map[string][]*Clause{}, UFs: map[string]*UFDecl{}, Tracked: map[string]bool{}, RaceStrict: map[string]bool{}, Conds: map[string]string{}, Fns: map[string]*FnContract{}, Preds: map[string]*PredDef{}, Ghosts: map[string]*GhostDecl{},
+	return &SpecDB{GlobalInvs: map[string][]*Clause{}, UFs: map[string]*UFDecl{}, Tracked: map[string]bool{}, RaceStrict: map[string]bool{}, SweepWrappers: map[string]bool{}, Conds: map[string]string{}, Fns: map[string]*FnContract{}, Preds: map[string]*PredDef{}, Ghosts: map[string]*GhostDecl{},
 		LockInvs: map[string][]*LockInv{}, Protects: map[string]*Protect{}, TypeInvs: map[string][]*Clause{},
 		LockLevel: map[string]int{}, Guards: map[string][]string{}, Options: map[string]map[string]string{},
 		Imports: map[string]map[string]string{}, Dyn: map[string]*FnContract{}, Mono: map[string][]*Clause{}}
@@ -212,7 +213,7 @@ func parseLabel(s string) (label string, tags []string, rest string) {
 	return
 }
 
-var directiveKW = map[string]bool{"globalinv": true, "uf": true, "tracked": true, "cond": true, "callers": true, "racestrict": true, "autotag": true, "option": true, "import": true, "ghost": true, "pred": true, "inv": true, "lockinv": true, "protect": true,
+var directiveKW = map[string]bool{"globalinv": true, "uf": true, "tracked": true, "cond": true, "callers": true, "racestrict": true, "sweepwrappers": true, "autotag": true, "option": true, "import": true, "ghost": true, "pred": true, "inv": true, "lockinv": true, "protect": true,
 	"typeinv": true, "lockorder": true, "guards": true, "func": true, "dyn": true, "lemma": true, "mono": true, "spec": true}
 var clauseKW = map[string]bool{"requires": true, "ensures": true, "loop": true, "locks": true, "modifies": true, "inline": true,
 	"trusted": true, "entry": true, "optional": true, "blocking": true, "pure": true, "callsite": true, "captures": true,
@@ -469,6 +470,10 @@ func (db *SpecDB) loadSpecFile(path string, pkgPath string, goFile bool) {
 				continue
 			}
 			db.Callers = append(db.Callers, &CallersDecl{Label: label, Tags: tags, Fn: strings.TrimSpace(rest[:i]), Allowed: strings.Fields(rest[i+1:]), Pkg: pkgPath, File: path, Line: it.n})
+		case "sweepwrappers":
+			for _, t := range strings.Fields(it.text) {
+				db.SweepWrappers[pkgPath+"."+t] = true
+			}
 		case "racestrict":
 			for _, t := range strings.Fields(it.text) {
 				db.RaceStrict[pkgPath+"."+t] = true
